@@ -49,7 +49,7 @@ fn addr_of(a: u32) -> IpAddr {
 
 // attribute block of (source, token): distinct LOCAL_PREF per (token, source) so the
 // ranking has no ties; ORIGIN 2 for token 3 (the export policy of some cases rejects
-// it); a COMMUNITY 1:<token> that survives every export rewrite and lets the mirror
+// it); COMMUNITY 1:<token> 2:<source> that survive every export rewrite and lets the mirror
 // be read back.
 fn attrs_of(src: u32, tok: u32) -> Arc<Vec<packet::Attribute>> {
     Arc::new(vec![
@@ -59,7 +59,7 @@ fn attrs_of(src: u32, tok: u32) -> Arc<Vec<packet::Attribute>> {
             .unwrap(),
         packet::Attribute::new_with_bin(
             packet::Attribute::COMMUNITY,
-            (0x0001_0000u32 | tok).to_be_bytes().to_vec(),
+            [(0x0001_0000u32 | tok).to_be_bytes(), (0x0002_0000u32 | src).to_be_bytes()].concat(),
         )
         .unwrap(),
     ])
@@ -69,9 +69,10 @@ fn nh_of(tok: u32) -> Option<bgp::Nexthop> {
     Some(bgp::Nexthop::V4(Ipv4Addr::new(10, 2, 0, 1 + tok as u8)))
 }
 
-// (token, LLGR_STALE marker) read back from exported attributes
-fn decode(attr: &Arc<Vec<packet::Attribute>>) -> (u32, u32) {
+// (source, token, LLGR_STALE marker) read back from exported attributes
+fn decode(attr: &Arc<Vec<packet::Attribute>>) -> (u32, u32, u32) {
     let mut tok = 999u32;
+    let mut src = 999u32;
     let mut llgr = 0u32;
     if let Some(bin) = attr
         .iter()
@@ -84,10 +85,12 @@ fn decode(attr: &Arc<Vec<packet::Attribute>>) -> (u32, u32) {
                 llgr = 1;
             } else if v >> 16 == 1 {
                 tok = v & 0xffff;
+            } else if v >> 16 == 2 {
+                src = v & 0xffff;
             }
         }
     }
-    (tok, llgr)
+    (src, tok, llgr)
 }
 
 type Route = (Arc<Vec<packet::Attribute>>, Option<bgp::Nexthop>);
@@ -115,8 +118,8 @@ fn apply_msgs(msgs: &[bgp::Message], mirror: &mut Mirror) -> (Vec<Vec<u32>>, Vec
                 for e in entries {
                     let k = (net_idx(&e.nlri), e.path_id);
                     mirror.insert(k, (Arc::clone(attr), *nexthop));
-                    let (t, l) = decode(attr);
-                    re.push(vec![k.0, k.1, t, l]);
+                    let (s, t, l) = decode(attr);
+                    re.push(vec![k.0, k.1, s, t, l]);
                 }
             }
             bgp::Message::Update(bgp::Update::EndOfRib(_)) => eor += 1,
@@ -136,8 +139,8 @@ fn mirror_rows(m: &Mirror) -> Val {
     let mut r: Vec<Vec<u32>> = m
         .iter()
         .map(|(k, (a, _))| {
-            let (t, l) = decode(a);
-            vec![k.0, k.1, t, l]
+            let (s, t, l) = decode(a);
+            vec![k.0, k.1, s, t, l]
         })
         .collect();
     r.sort();
@@ -242,7 +245,7 @@ impl World {
                     c.current_paths
                         .iter()
                         .map(|p| {
-                            let (t, _) = decode(&p.attr);
+                            let (_, t, _) = decode(&p.attr);
                             let s = self
                                 .srcs
                                 .iter()
